@@ -48,7 +48,8 @@ REQUIRED = {'sync_points_checked': 1000, 'crash_points': 500, 'restarts': 1000,
             'fsm_states_restored': 200, 'timer_expiry_preserved': 100,
             'expired_during_downtime': 100, 'expiration_discarded': 50, 'nosync_unchanged': 200,
             'handler_failure_not_saved': 20, 'failed_start_nothing_written': 10,
-            'regular_stop_checked': 100, 'unused_keys_removed': 500, 'timedate_restored': 100}
+            'regular_stop_checked': 100, 'unused_keys_removed': 500, 'timedate_restored': 100,
+            'runs_without_persistent_blocks': 50}
 SHARDS = {'quick': 16, 'thorough': 16}
 TIMEOUT = {'quick': 600, 'thorough': 3600}
 
@@ -517,6 +518,41 @@ def life2(case, point, downtime, ctx, origin):
     return viol
 
 
+def life_without_persistent_blocks(case, ctx, snapshot):
+    """
+    A run in which no block is persistent (all of them were removed or switched off) but the
+    storage of the previous runs is still attached: entries of blocks that no longer exist are
+    removed at start, reserved ones are kept.
+    """
+    import edzed
+    res = {}
+
+    def build():
+        return {'a': edzed.Input('a', initdef=0),
+                'b': edzed.Counter('cnt', initdef=0, persistent=False),
+                'n': edzed.Not('n').connect('a')}
+    storage = harness.Storage(init=snapshot)
+
+    async def drive(sim, objs):
+        res['after_start'] = storage.snapshot()
+        edzed.ExtEvent(objs['a']).send(1)
+        await harness.settle(2)
+    out = harness.run_sim(build, drive, storage=storage)
+    if out['exc'] is not None or not out['started']:
+        return [('restart-failed', f"circuit without persistent blocks: {out['exc']!r} "
+                 f"{out['sim'].circuit.error!r}")]
+    ctx.count('runs_without_persistent_blocks')
+    viol = []
+    left = [k for k in res['after_start'] if not k.startswith('edzed-')]
+    if left:
+        viol.append(('unused-key-kept',
+                     f"no block is persistent, yet the entries {left} survived the start"))
+    for k, v in snapshot.items():
+        if k.startswith('edzed-') and k != 'edzed-stop-time' and res['after_start'].get(k) != v:
+            viol.append(('reserved-key-removed', f"{k}: {v!r} -> {res['after_start'].get(k)!r}"))
+    return viol
+
+
 def run_case(case, ctx):
     points, info = life1(case, ctx)
     if info['exc'] is not None:
@@ -537,6 +573,10 @@ def run_case(case, ctx):
         return True
     rng = ctx.rng('life2', core.case_hash(case))
     nontrivial = False
+    if points:
+        for key, msg in life_without_persistent_blocks(case, ctx, points[-1]['snapshot']):
+            ctx.violation({'case': case, 'point': points[-1]['label'], 'nopersist': True}, key, msg)
+            return True
     for point in points:
         if point['kind'] == 'failed_start':
             continue
